@@ -8,6 +8,43 @@ COMMON_ASSUME = [
 ]
 
 PROPS = {
+    "C01": {
+        "units": [
+            {"pkg": "./c01", "shards": 4, "shards_thorough": 16, "timeout": 900},
+            {"pkg": "./mainpkg", "run": "^TestC01", "shards": 4, "shards_thorough": 8, "timeout": 1200},
+        ],
+        "rule": ("Layer A (function, via hook VerifPassingServices = tag-prefix filter + passingServices): rapid-generated check multisets over 1-3 nodes x 0-4 service instances, 0-4 service checks per instance with "
+                 "status in {passing, warning, critical, unknown, ''}, serfHealth absent/passing/critical/duplicated, node maintenance, service maintenance, other node-level checks, tagged and untagged instances, the "
+                 "same service id on two nodes, every non-empty accepted-status subset, both checksRequired modes, random order of the slice; oracle: reference predicate from the statement, instance set equal in both "
+                 "directions. Layer B (pipeline, stateful): a fake Consul HTTP API (agent/self, health/state/any, catalog/service, kv?recurse with blocking queries and X-Consul-Index) drives consul.NewBackend's real "
+                 "watchers, whose channels feed the unmodified watchBackend loop of main.go; histories of 5-25 (thorough 100) operations from {register/re-register with 0-3 urlprefix tags and options, deregister, flip "
+                 "one check, agent failure/recovery, node maintenance, service maintenance, KV put/delete of manual route add / route del blocks}; one pipeline per process with the health rule varied by shard (one/all, "
+                 "accepted lists, blocking and 15 ms polling mode); after every operation the harness waits until both watchers have consumed the registry's current index and compares the set {(service, prefix, target)} "
+                 "of route.GetTable() with model = tags of healthy instances + manual adds - manual dels (iff). Non-trivial = >=2 instances with one excluded for a reason other than 'no accepted check' (A); history "
+                 "containing a healthy<->unhealthy transition of an instance (B)."),
+        "technique": "rapid property test of the health filter against a reference predicate; rapid stateful (model-based) histories through the real watch -> config -> table pipeline with a fake Consul API",
+        "level_text": "The health filter is compared with a reference predicate on generated check multisets, and generated registry histories are replayed through the production watchers and update loop against a model of 'healthy and tagged, plus operator commands', compared after every step at quiescence. Exploration only.",
+        "level_note": "Every installed table is not intercepted (no hook in the store path): tables are observed at quiescence and by polling. The fake Consul implements only the endpoints fabio calls; Consul's maintenance checks are always 'critical' as the real agent registers them.",
+        "assumptions": COMMON_ASSUME + ["the fake Consul API is faithful for the endpoints and fields fabio uses (index semantics, 404 for empty KV lists)"],
+    },
+    "C14": {
+        "units": [
+            {"pkg": "./c14", "shards": 4, "shards_thorough": 16, "timeout": 900},
+            {"pkg": "./mainpkg", "run": "^TestC14", "shards": 4, "shards_thorough": 8, "timeout": 1200},
+        ],
+        "rule": ("rapid-generated Consul catalog entries: service names (plain, dotted, with space/tab/newline, quote, backslash, non-ASCII, empty, keywords), service/node addresses (IPv4, IPv6, host name, empty -> node "
+                 "address), ports, 1-3 urlprefix- tags host/path with mixed-case hosts, :port form, $DC/${DC} expansion, glob characters, and 0-3 options from {proto=tcp|https|grpc|grpcs|http|bogus, weight=<float|junk|Inf|"
+                 "NaN|1e308|''>, strip=, prepend=, host=, redirect=<code>,<url> (valid, missing url, bad escape), allow=, register=, tokens with quotes/backslashes/non-ASCII}, 0-4 other tags (quotes, backslashes, non-ASCII, "
+                 "blanks, control characters, commas, embedded newline + 'route add' text), alone and next to 0-3 plain services. Through the hook VerifRouteCmds: every emitted command must parse with route.Parse to "
+                 "exactly one 'route add' that NewTable accepts and whose service, source (lower-cased expanded host + path), destination (scheme by proto, JoinHostPort), weight, tags and options equal one route tag "
+                 "of the registration; every expressible tag of an expressible registration must be emitted; NewTable over all services succeeds and contains every neighbour's routes. Pipeline form (fake Consul + real "
+                 "loop): histories in which an odd registration (name with space, quote in a tag, weight=abc/Inf, bad redirect URL, bad glob, empty prefix, newline injection) appears and leaves while neighbours keep "
+                 "changing: the table keeps following the neighbours after every step. Non-trivial = registration with a character outside [A-Za-z0-9._/:=-,$*] or a non-numeric weight; histories with an odd registration."),
+        "technique": "rapid property test: generator/parser round trip across packages (routecmd.build -> route.Parse/NewTable) plus model-based pipeline histories with a fake Consul API",
+        "level_text": "Generated registrations are turned into route commands by fabio and fed back to fabio's own parser and table builder; each command must denote the registration. The same odd registrations are injected into live pipeline histories and the table must keep tracking the other services. Exploration only.",
+        "level_note": "A comma inside a plain tag splits it (the command language uses the comma as separator) and 'tags \"\"' means no tags; both are taken as the language's denotation, not as violations.",
+        "assumptions": COMMON_ASSUME,
+    },
     "C11": {
         "units": [
             {"pkg": "./c11", "run": "TestC11Selection|TestC11Handshakes|TestC11SourceHistories", "shards": 4, "shards_thorough": 8, "timeout": 900},
